@@ -176,6 +176,10 @@ def crc(ctx):
                     for st in w.stmts(pbb):
                         if 'assign' in st and st['rv']['k'] == 'cast' and st['rv']['to'] == 'u64' and st['rv']['from'] == 'u8':
                             bo = origin(w, st['rv']['op'])
+                for pbb, pt in w.calls():
+                    # `u64::from(b)` is the same widening
+                    if (pt.get('callee') or '').endswith(('convert::From::from', 'convert::Into::into')) and (pt.get('arg_tys') or [''])[0] == 'u8' and w.local_ty(pt['dest']['l']) == 'u64':
+                        bo = origin(w, pt['args'][0])
                 byte_ok = False
                 if bo is not None and not bo.has_arith():
                     nx_ = [c_ for c_ in bo.calls if (c_.get('callee') or '').endswith('Iterator::next')]
